@@ -274,6 +274,15 @@ func rulePairAccess(c *core.Ctx) {
 				}
 				return true
 			}
+			if be.Op == token.MUL {
+				// S[2*k] inside `for ...; 2*k < len(S); ...` (or `k < len(S)/2`): the first element of pair k
+				if pairLoopBounds(info, d.Body, ix, be) {
+					c.OK(rule, key, ix.Pos(), "index 2*k is bounded by the loop condition 2*k < len(S)")
+				} else {
+					c.Bad(rule, key, ix.Pos(), "index 2*k is not bounded by an enclosing `2*k < len(S)` loop")
+				}
+				return true
+			}
 			if be.Op != token.ADD {
 				c.Bad(rule, key, ix.Pos(), "unrecognised index arithmetic on YAML content")
 				return true
@@ -332,6 +341,54 @@ func loopBounds(info *types.Info, body *ast.BlockStmt, ix *ast.IndexExpr) bool {
 	return found
 }
 
+// pairLoopBounds: ix.Index is `2*k` / `k*2` and an enclosing for statement has the condition `2*k < len(S)` or
+// `k < len(S)/2` with the same S text.
+func pairLoopBounds(info *types.Info, body *ast.BlockStmt, ix *ast.IndexExpr, mul *ast.BinaryExpr) bool {
+	twoTimes := func(e ast.Expr) types.Object {
+		b, ok := ast.Unparen(e).(*ast.BinaryExpr)
+		if !ok || b.Op != token.MUL {
+			return nil
+		}
+		for _, pr := range [][2]ast.Expr{{b.X, b.Y}, {b.Y, b.X}} {
+			if v, isC := constInt(info, pr[0]); isC && v == 2 {
+				return identObj(info, pr[1])
+			}
+		}
+		return nil
+	}
+	k := twoTimes(mul)
+	if k == nil {
+		return false
+	}
+	found := false
+	ast.Inspect(body, func(n ast.Node) bool {
+		f, ok := n.(*ast.ForStmt)
+		if !ok || !(f.Body.Pos() <= ix.Pos() && ix.End() <= f.Body.End()) {
+			return true
+		}
+		be, ok := f.Cond.(*ast.BinaryExpr)
+		if !ok || be.Op != token.LSS {
+			return true
+		}
+		if twoTimes(be.X) == k {
+			if a, ok := lenArg(info, be.Y); ok && types.ExprString(a) == types.ExprString(ix.X) {
+				found = true
+			}
+		}
+		if identObj(info, be.X) == k {
+			if q, ok := ast.Unparen(be.Y).(*ast.BinaryExpr); ok && q.Op == token.QUO {
+				if v, isC := constInt(info, q.Y); isC && v == 2 {
+					if a, ok := lenArg(info, q.X); ok && types.ExprString(a) == types.ExprString(ix.X) {
+						found = true
+					}
+				}
+			}
+		}
+		return true
+	})
+	return found
+}
+
 // kindIsMappingAt: before `at`, on the straight-line prefix of the function (or of the
 // enclosing case clause), there is `if node.Kind != yaml.MappingNode { return ... }`, or
 // `at` lies in the body of `if node.Kind == yaml.MappingNode` / `case yaml.MappingNode` of a switch on node.Kind.
@@ -364,6 +421,14 @@ func kindIsMappingAt(info *types.Info, body *ast.BlockStmt, node types.Object, a
 					}
 					if be.Op == token.EQL && contains && s.Body.Pos() <= at.Pos() && at.End() <= s.Body.End() {
 						ok = true
+					}
+				}
+				// `Kind == Mapping && <anything>` with `at` in the body
+				if contains && s.Body.Pos() <= at.Pos() && at.End() <= s.Body.End() {
+					for _, cj := range conjuncts(s.Cond) {
+						if b, isB := ast.Unparen(cj).(*ast.BinaryExpr); isB && b.Op == token.EQL && isKindSel(b.X) && isMapping(b.Y) {
+							ok = true
+						}
 					}
 				}
 				// `Kind != Mapping || <anything>` leaving: afterwards Kind == Mapping
@@ -789,6 +854,43 @@ func ruleErrorProvenance(c *core.Ctx) {
 						})
 						if n > 0 {
 							return allOk, why
+						}
+					}
+					// a function value looked up in the package: `g := lookup(tag)` where lookup returns nil or named
+					// functions — the call is a call of one of those
+					if lit == nil {
+						if lk, ok := ast.Unparen(singleDefRHS(info, body, id)).(*ast.CallExpr); ok {
+							if lf := core.Callee(info, lk); lf != nil && core.InModule(lf) {
+								if ld := c.Decl(lf.Origin()); ld != nil && ld.Body != nil {
+									li := c.DeclPkg(ld).TypesInfo
+									allNamed, cands := true, []*types.Func{}
+									ast.Inspect(ld.Body, func(m ast.Node) bool {
+										if _, isLit := m.(*ast.FuncLit); isLit {
+											return false
+										}
+										if ret, ok := m.(*ast.ReturnStmt); ok && len(ret.Results) == 1 {
+											r := ast.Unparen(ret.Results[0])
+											if tv := li.Types[r]; tv.IsNil() {
+												return true
+											}
+											if fn, ok := identObj(li, r).(*types.Func); ok {
+												cands = append(cands, fn)
+											} else {
+												allNamed = false
+											}
+										}
+										return true
+									})
+									if allNamed && len(cands) > 0 {
+										for _, fn := range cands {
+											if !okCallee(fn.Origin()) {
+												return false, "error produced by " + fn.Name() + " (one of the functions " + lf.Name() + " returns)"
+											}
+										}
+										return true, "from one of the functions " + lf.Name() + " returns"
+									}
+								}
+							}
 						}
 					}
 				}
